@@ -1,9 +1,186 @@
+import CoupeModel.Model.Hilbert
 import CoupeModel.Driver.Util
 
-namespace Coupe.Driver.C08
-open Coupe.Driver
+/-! Line-protocol handler of C08 (Hilbert index, coordinate quantisation).
 
-/-- (stub; not built yet) -/
-def handle (_toks : List String) : String := "bad-op"
+ops (integers decimal unless stated; floats as binary64 bit patterns in hex):
+  `grid2 <order>` / `grid3 <order>`            all cells, first coordinate outermost -> indices
+  `e2 <order> <n> x1 y1 …` / `e3 <order> <n> x1 y1 z1 …`  -> indices | `panic …`
+  `slow2 <order> <config> <n> z1 …`            -> `h1 c1 …`
+  `pdep <n> src1 mask1 …` (hex)                -> `a1 b1 …` (hex; both are the modelled fallback)
+  `seg <order> <min> <max> <n> v1 …`           -> cells | `panic …` | `hang`
+
+The encoders are the model's own `fast2`, `enc3U`, `slow2U`, `pdepFallback`.
+`segment_to_segment` and `nextafter` are IEEE binary64 computations: they are
+mirrored here on Lean's `Float` (hardware doubles), statement by statement. -/
+
+namespace Coupe.Driver.C08
+open Coupe.Hilbert Coupe.Driver
+
+/-- largest exhaustive grids an op may ask for (same limits in the harness) -/
+def grid2Max : Nat := 11
+def grid3Max : Nat := 7
+
+/-- `u64` operands: anything wider is not an op (the harness parses into `u64`). -/
+def parseU64? (s : String) : Option Nat := (parseNat? s).filter (· < W64)
+def parseHex64? (s : String) : Option Nat := (parseHex? s).filter (· < W64)
+
+/-! ## binary64 helpers -/
+
+def fOfBits (n : Nat) : Float := Float.ofBits (UInt64.ofNat n)
+def posInf : Float := fOfBits 0x7ff0000000000000
+def negInf : Float := fOfBits 0xfff0000000000000
+def fNaN : Float := fOfBits 0x7ff8000000000000
+
+/-- `f64::copysign(mag, sign)` on the bit patterns. -/
+def copysign (mag sign : Float) : Float :=
+  Float.ofBits ((mag.toBits &&& 0x7fffffffffffffff) ||| (sign.toBits &&& 0x8000000000000000))
+
+/-- `src/nextafter.rs: nextafter(from, to)`, branch by branch. -/
+def nextafter (frm to : Float) : Float :=
+  if frm == to then to
+  else if frm.isNaN || to.isNaN then fNaN
+  else if frm ≥ posInf then posInf
+  else if frm ≤ negInf then negInf
+  else if frm == 0.0 then copysign (Float.ofBits 1) to
+  else
+    let ret :=
+      if decide (frm < to) == decide ((0.0 : Float) < frm) then Float.ofBits (frm.toBits + 1)
+      else Float.ofBits (frm.toBits - 1)
+    if ret == 0.0 then copysign ret frm else ret
+
+/-- `segment_to_segment`: `while n <= width * f { f = nextafter(f, 0.0) }`.
+`none` = the loop does not end: either `nextafter` returns its argument
+unchanged (bit for bit) while the condition holds – then no later iteration
+can differ – or the fuel runs out. -/
+def segLoop (n width : Float) : Nat → Float → Option Float
+  | 0, _ => none
+  | fuel + 1, f =>
+    if n ≤ width * f then
+      let f' := nextafter f 0.0
+      if f'.toBits == f.toBits then none else segLoop n width fuel f'
+    else some f
+
+/-- the closure `move |v| { debug_assert!(min <= v && v <= max, …); (f * (v - min)) as u64 }`;
+`none` = the assertion fails.  `as u64` saturates and maps NaN to 0, like `Float.toUInt64`. -/
+def segCell (min max f v : Float) : Option Nat :=
+  if min ≤ v ∧ v ≤ max then some (f * (v - min)).toUInt64.toNat else none
+
+def seg (order : Nat) (min max : Float) (vs : List Float) : String :=
+  if ¬ (min ≤ max) then "panic assertion failed: min <= max"
+  else if order ≥ 64 then "panic attempt to shift left with overflow"
+  else
+    let width := max - min
+    -- `(1_u64 << order) as f64`: a power of two, exact
+    let n := fOfBits ((1023 + order) <<< 52)
+    match segLoop n width 100000 (n / width) with
+    | none => "hang"
+    | some f =>
+      match vs.mapM (segCell min max f) with
+      | none => "panic not in ["
+      | some cells => joinNats cells
+
+/-! ## encoders -/
+
+def joinOpt (l : List (Option Nat)) (panic : String) : String :=
+  match l.mapM id with
+  | some hs => joinNats hs
+  | none => panic
+
+/-- chunks of 2 / 3 coordinates -/
+def pairs : List Nat → List (Nat × Nat)
+  | x :: y :: rest => (x, y) :: pairs rest
+  | _ => []
+
+def triples : List Nat → List (Nat × Nat × Nat)
+  | x :: y :: z :: rest => (x, y, z) :: triples rest
+  | _ => []
+
+def grid2 (order : Nat) : String := Id.run do
+  let side := 2 ^ order
+  let mut s := ""
+  for x in [0:side] do
+    for y in [0:side] do
+      match fast2 x y order with
+      | some h => s := (if x == 0 && y == 0 then s else s.push ' ') ++ toString h
+      | none => return "panic Cannot encode"
+  return s
+
+def grid3 (order : Nat) : String := Id.run do
+  let side := 2 ^ order
+  let mut s := ""
+  for x in [0:side] do
+    for y in [0:side] do
+      for z in [0:side] do
+        match enc3U x y z order with
+        | some h => s := (if x == 0 && y == 0 && z == 0 then s else s.push ' ') ++ toString h
+        | none => return "panic Cannot encode"
+  return s
+
+def handle (toks : List String) : String :=
+  match toks with
+  | ["grid2", o] =>
+    match parseNat? o with
+    | some o => if o ≤ grid2Max then grid2 o else "bad-op"
+    | none => "bad-op"
+  | ["grid3", o] =>
+    match parseNat? o with
+    | some o => if o ≤ grid3Max then grid3 o else "bad-op"
+    | none => "bad-op"
+  | "e2" :: o :: n :: rest =>
+    match (do
+      let o ← parseNat? o
+      let n ← parseNat? n
+      let (cs, rest) ← takeParsed parseU64? (2 * n) rest
+      if rest.isEmpty then some (o, cs) else none) with
+    | none => "bad-op"
+    | some (o, cs) =>
+      if o ≥ 64 then "panic assertion failed: order < 64"
+      else if o > 32 then "skip order above the accepted range (the u64 shifts of encode_2d overflow; not modelled)"
+      else joinOpt ((pairs cs).map fun (x, y) => fast2 x y o) "panic Cannot encode"
+  | "e3" :: o :: n :: rest =>
+    match (do
+      let o ← parseNat? o
+      let n ← parseNat? n
+      let (cs, rest) ← takeParsed parseU64? (3 * n) rest
+      if rest.isEmpty then some (o, cs) else none) with
+    | none => "bad-op"
+    | some (o, cs) =>
+      if o ≥ 64 then "panic assertion failed: order < 64"
+      else if o > 21 then "skip order above the accepted range (the u64 shifts of encode_3d overflow; not modelled)"
+      else joinOpt ((triples cs).map fun (x, y, z) => enc3U x y z o) "panic Cannot encode"
+  | "slow2" :: o :: c :: n :: rest =>
+    match (do
+      let o ← parseNat? o
+      let c ← parseNat? c
+      let n ← parseNat? n
+      let (zs, rest) ← takeParsed parseU64? n rest
+      if rest.isEmpty then some (o, c, zs) else none) with
+    | none => "bad-op"
+    | some (o, c, zs) =>
+      if o > 32 then "skip order above 32 (the u64 shift of encode_2d_slow overflows; not modelled)"
+      else if o ≥ 1 ∧ c ≥ 4 ∧ ¬ zs.isEmpty then "panic index out of bounds"
+      else joinNats (zs.flatMap fun z => let r := slow2U z o c; [r.1, r.2])
+  | "pdep" :: n :: rest =>
+    match (do
+      let n ← parseNat? n
+      let (xs, rest) ← takeParsed parseHex64? (2 * n) rest
+      if rest.isEmpty then some xs else none) with
+    | none => "bad-op"
+    | some xs =>
+      " ".intercalate ((pairs xs).flatMap fun (s, m) =>
+        let r := toHex (pdepFallback s m)
+        [r, r])
+  | "seg" :: o :: mn :: mx :: n :: rest =>
+    match (do
+      let o ← parseNat? o
+      let mn ← parseHex64? mn
+      let mx ← parseHex64? mx
+      let n ← parseNat? n
+      let (vs, rest) ← takeParsed parseHex64? n rest
+      if rest.isEmpty then some (o, mn, mx, vs) else none) with
+    | none => "bad-op"
+    | some (o, mn, mx, vs) => seg o (fOfBits mn) (fOfBits mx) (vs.map fOfBits)
+  | _ => "bad-op"
 
 end Coupe.Driver.C08
